@@ -2,8 +2,9 @@
    Header lines of a case: "keys k0 k1 ..." (key of element id i; further
    "keys" lines continue the table),
    "kind bin|rb".  Components: tree (kind from the header, default bin),
-   bintree, rbtree (default kind fixed), and the closure explorers
-   tree-bfs / bintree-bfs / rbtree-bfs. *)
+   bintree, rbtree (default kind fixed), the closure explorers
+   tree-bfs / bintree-bfs / rbtree-bfs, and treel / bintreel / rbtreel: the
+   pointer-level model TreeLinksModel.v on the same scripts. *)
 open Util
 open TreeModel
 
@@ -69,6 +70,71 @@ let run_case ~(dflt : kind) (c : case) =
 
 let main ~dflt ic = L.iter (run_case ~dflt) (read_cases ic)
 
+(* ---- pointer-level model (TreeLinksModel.v): components treel / bintreel /
+   rbtreel.  Same scripts, same trace format; the dump is produced from the
+   pointer-level memory the way the C driver decodes the real structure
+   (shape, ids, colours, every parent pointer, nodes reached twice), plus
+   MALFORMED(decode) if the Coq decoder rejects a state the walk accepted. *)
+module TL = TreeLinksModel
+
+let dump_links (rb : bool) key (s : TL.lstate) : string =
+  let b = Buffer.create 256 in
+  let seen = Hashtbl.create 64 in
+  let nodes = ref 0 and bad = ref false in
+  let mal fmt = Printf.ksprintf (fun t -> bad := true; Buffer.add_string b (" MALFORMED(" ^ t ^ ")")) fmt in
+  let rec go (a : Datatypes.nat option) (parent : Datatypes.nat option) =
+    match a with
+    | None -> Buffer.add_string b " ."
+    | Some ad ->
+      let i = int_of_nat ad in
+      if !nodes > 256 then mal "cycle"
+      else if i = 0 then mal "foreign-node"
+      else if Hashtbl.mem seen i then mal "node-%d-reached-twice" (i - 1)
+      else begin
+        Hashtbl.replace seen i ();
+        incr nodes;
+        let n = TL.mget s.TL.lm ad in
+        Buffer.add_string b (Printf.sprintf " ( %d" (i - 1));
+        if rb then Buffer.add_string b (match n.TL.n_c with Red -> " R" | Black -> " B");
+        if n.TL.n_p <> parent then mal "parent-of-%d" (i - 1);
+        go n.TL.n_l a; go n.TL.n_r a;
+        Buffer.add_string b " )"
+      end in
+  go s.TL.lroot None;
+  let sz = string_of_n s.TL.lsz in
+  if string_of_int !nodes <> sz then mal "size-%s-nodes-%d" sz !nodes;
+  (match TL.decode key s with
+   | None -> if not !bad then mal "decode"
+   | Some _ -> ());
+  Printf.sprintf "| %s%s" sz (Buffer.contents b)
+
+let run_case_links ~(dflt : kind) (c : case) =
+  Printf.printf "case %s\n" c.name;
+  let keys = ref [||] and kd = ref dflt in
+  let st = ref TL.l_init in
+  let dead = ref false in
+  L.iter (fun w ->
+    if not !dead then
+    match w with
+    | "keys" :: ks -> keys := Array.append !keys (Array.of_list (L.map z_of_string ks))
+    | ["kind"; k] -> kd := kind_of_string k
+    | ["cmpmode"; _] -> ()
+    | _ ->
+      let key n = let i = int_of_nat n in if i < Array.length !keys then !keys.(i) else BinNums.Z0 in
+      (match parse_op w with
+       | None -> Printf.printf "badop %s\n" (S.concat " " w); dead := true
+       | Some o ->
+         (match TL.lstep key !kd !st o with
+          | Prelude.Done (s', out) ->
+            st := s';
+            Printf.printf "ok %s %s\n" (zs out) (dump_links (!kd = RB) key s')
+          | Prelude.Abort -> print_endline "abort"; dead := true
+          | Prelude.Fault -> print_endline "fault"; dead := true
+          | Prelude.Precond -> print_endline "precond"; dead := true))) c.lines;
+  print_endline "end"
+
+let main_links ~dflt ic = L.iter (run_case_links ~dflt) (read_cases ic)
+
 (* closure exploration: elements 0..ne-1 with the given keys.
    mode "all": every operation of C01 with every stop position of the
    visitor; "all-sparse": fewer stop positions; "rb": insert (plain and with
@@ -122,6 +188,9 @@ let () =
   register "tree" (fun argv -> main ~dflt:Bin (input_of argv 2));
   register "bintree" (fun argv -> main ~dflt:Bin (input_of argv 2));
   register "rbtree" (fun argv -> main ~dflt:RB (input_of argv 2));
+  register "treel" (fun argv -> main_links ~dflt:Bin (input_of argv 2));
+  register "bintreel" (fun argv -> main_links ~dflt:Bin (input_of argv 2));
+  register "rbtreel" (fun argv -> main_links ~dflt:RB (input_of argv 2));
   (* <x>-bfs <max_states> <mode> k0 k1 ...   (tree-bfs: kind first) *)
   let bfs kd off argv =
     let keys = L.map int_of_string (Array.to_list (Array.sub argv (off + 2) (Array.length argv - off - 2))) in
